@@ -107,6 +107,49 @@ class SymByteArray(list):
     def hex(self, *a):
         return self.concrete().hex(*a)
 
+    # -- the strip family and prefix/suffix tests (each item comparison forks on symbolic items)
+    @staticmethod
+    def _strip_set(chars):
+        if chars is None:
+            return list(b' \t\n\r\x0b\x0c')
+        return list(chars)
+
+    def _stripped(self, chars, left, right):
+        cs = self._strip_set(chars)
+        items = list(self)
+        if right:
+            while items and any(bool(items[-1] == c) for c in cs):
+                items.pop()
+        if left:
+            while items and any(bool(items[0] == c) for c in cs):
+                items.pop(0)
+        out = type(self)()
+        list.extend(out, items)
+        return out
+
+    def rstrip(self, chars=None):
+        return self._stripped(chars, False, True)
+
+    def lstrip(self, chars=None):
+        return self._stripped(chars, True, False)
+
+    def strip(self, chars=None):
+        return self._stripped(chars, True, True)
+
+    def startswith(self, prefix):
+        prefix = list(prefix)
+        return len(self) >= len(prefix) and all(bool(a == b) for a, b in zip(self, prefix))
+
+    def endswith(self, suffix):
+        suffix = list(suffix)
+        n = len(suffix)
+        return len(self) >= n and all(bool(a == b) for a, b in zip(list(self)[len(self) - n:], suffix))
+
+    def __getattr__(self, name):
+        if hasattr(builtins.bytearray, name):
+            raise Unmodelled('bytearray.%s on a buffer of proxy items is not modelled' % name)
+        raise AttributeError(name)
+
     def __eq__(self, o):
         if isinstance(o, (bytes, builtins.bytearray)):
             o = list(o)
@@ -170,15 +213,73 @@ class SymRange:
         return self.n.__index__()
 
 
+class RangeProxy:
+    """A concrete range whose membership test understands proxies: `x in range(a, b)` with a symbolic integer x
+    is two comparisons (at most three paths) instead of one equality fork per element.  Everything else is the
+    real range object."""
+
+    def __init__(self, r):
+        self.r = r
+
+    def __contains__(self, v):
+        r = self.r
+        if isinstance(v, SymInt) and len(r) and r.step in (1, -1):
+            lo, hi = (r[0], r[-1]) if r.step == 1 else (r[-1], r[0])
+            return bool(v >= lo) and bool(v <= hi)
+        if isinstance(v, (SymInt, SymBool)) or type(v).__name__ in ('SymReal',):
+            return any(bool(v == i) for i in r)
+        return v in r
+
+    def __iter__(self):
+        return iter(self.r)
+
+    def __reversed__(self):
+        return reversed(self.r)
+
+    def __len__(self):
+        return len(self.r)
+
+    def __bool__(self):
+        return bool(self.r)
+
+    def __getitem__(self, i):
+        if isinstance(i, SymInt):
+            i = i.__index__()
+        x = self.r[i]
+        return RangeProxy(x) if isinstance(x, builtins.range) else x
+
+    def __eq__(self, o):
+        return self.r == (o.r if isinstance(o, RangeProxy) else o)
+
+    def __ne__(self, o):
+        return not self == o
+
+    def __hash__(self):
+        return hash(self.r)
+
+    def __repr__(self):
+        return repr(self.r)
+
+    def index(self, v):
+        return self.r.index(v.__index__() if isinstance(v, SymInt) else v)
+
+    def count(self, v):
+        return 1 if v in self else 0
+
+    start = property(lambda self: self.r.start)
+    stop = property(lambda self: self.r.stop)
+    step = property(lambda self: self.r.step)
+
+
 def sym_range(*args):
     if any(isinstance(a, SymInt) for a in args):
         if len(args) == 1:
             lo, hi = args[0].rng()
             if lo == hi:
-                return builtins.range(lo)
+                return RangeProxy(builtins.range(lo))
             return SymRange(args[0])
-        return builtins.range(*[a.__index__() if isinstance(a, SymInt) else a for a in args])
-    return builtins.range(*args)
+        return RangeProxy(builtins.range(*[a.__index__() if isinstance(a, SymInt) else a for a in args]))
+    return RangeProxy(builtins.range(*args))
 
 
 class SymFile:
@@ -462,6 +563,14 @@ def install(extra=None):
         for name, val in list(vars(mod).items()):
             if type(val) is builtins.bytearray and not name.startswith('__'):
                 _set(mod, name, SymByteArray(_SNAP_BUFFERS.get((mname, name), bytes(val))))
+    # range: membership of a symbolic integer in a range is decided by two comparisons (every mido module; also
+    # range objects kept at module level)
+    for mname, mod in mods.items():
+        for name, val in list(vars(mod).items()):
+            if type(val) is builtins.range and not name.startswith('__'):
+                _set(mod, name, RangeProxy(val))
+        if 'range' not in vars(mod):
+            _set(mod, 'range', sym_range)
     for mname, shadows in BUILTIN_SHADOWS.items():
         mod = mods.get(mname)
         if mod is None:
